@@ -31,6 +31,7 @@ type RunSpec struct {
 	Covers    []string       `json:"must_cover"`
 	Note      string         `json:"note"`
 	ConcFmt   bool           `json:"concrete_fmt"`
+	RenderMax int            `json:"render_max"`
 }
 
 type PropSpec struct {
@@ -170,7 +171,7 @@ func cmdCheck(args []string) int {
 		FloatReal = r.Float != "fp"
 		cfg := &RunConfig{Harness: r.Harness, Fn: fn, MaxSteps: 5_000_000, MaxDepth: 400, MaxPaths: 3_000_000,
 			MapOrderAll: r.MapOrder != "insertion", Twin: true, Bounds: r.Bounds, BoundsSeen: map[string]int{},
-			TimeoutMs: 10000, Workers: *j, PanicOK: r.PanicOK, DepthIsViolation: r.DepthViol, ConcreteFmt: r.ConcFmt, TrackOrder: true}
+			TimeoutMs: 10000, Workers: *j, PanicOK: r.PanicOK, DepthIsViolation: r.DepthViol, ConcreteFmt: r.ConcFmt, TrackOrder: true, RenderMax: r.RenderMax}
 		if cfg.Bounds == nil {
 			cfg.Bounds = map[string]int{}
 		}
